@@ -76,6 +76,8 @@ func verifSpecs() []verifSpecCase {
 		"dyn": &AttrSpec{Name: "a", Type: cty.DynamicPseudoType},
 		"obj": ObjectSpec{"a": &AttrSpec{Name: "a", Type: cty.DynamicPseudoType}},
 	}
+	out = append(out, verifSpecCase{"BlockAttrsSpec/dyn", &BlockAttrsSpec{TypeName: "b", ElementType: cty.DynamicPseudoType}, 0})
+	out = append(out, verifSpecCase{"BlockAttrsSpec/str", &BlockAttrsSpec{TypeName: "b", ElementType: cty.String}, 0})
 	for nn, n := range nested {
 		out = append(out, verifSpecCase{"BlockListSpec/" + nn, &BlockListSpec{TypeName: "b", Nested: n}, 0})
 		out = append(out, verifSpecCase{"BlockSetSpec/" + nn, &BlockSetSpec{TypeName: "b", Nested: n}, 0})
@@ -112,7 +114,7 @@ func verifDecodeOne(c verifSpecCase, src string) (msg string) {
 }
 
 func TestVerifReplayDecode(t *testing.T) {
-	contents := []string{`a = "s"`, `a = true`, `a = [1]`, `a = {k = 1}`, ``, `a = nope`}
+	contents := []string{`a = "s"`, `a = true`, `a = [1]`, `a = {k = 1}`, ``, `a = nope`, "a = 1\nb = \"s\""}
 	n := 0
 	seenKey := map[string]bool{}
 	for _, c := range verifSpecs() {
@@ -153,5 +155,5 @@ func TestVerifReplayDecode(t *testing.T) {
 		}
 		rec(nil)
 	}
-	fmt.Printf("STANDIN inputs=%d bound=\"every body of at most 3 blocks from a 6-content alphabet (incl. an expression that fails to evaluate) against 30 block specifications (list, set, tuple, single, map and object with 1..3 labels; string, dynamic and object-with-dynamic nested)\"\n", n)
+	fmt.Printf("STANDIN inputs=%d bound=\"every body of at most 3 blocks from a 7-content alphabet (incl. an expression that fails to evaluate) against 32 block specifications (list, set, tuple, single, map and object with 1..3 labels; string, dynamic and object-with-dynamic nested)\"\n", n)
 }
